@@ -379,3 +379,234 @@ Proof.
   - apply (A (fun _ => True) (fun _ _ _ _ => I) (fun _ _ => I)).
   - intros U Uc Un. apply (A U Uc Un).
 Qed.
+
+(* ------------------------------------------------------------------ fuel *)
+
+Definition marks_mono (m m' : list (N * bool)) : Prop :=
+  forall x, alookup x m <> None -> alookup x m' <> None.
+
+Lemma marks_mono_aset n b m : marks_mono m (aset n b m).
+Proof. intros x H. rewrite alookup_aset. destruct (N.eqb x n); [discriminate|exact H]. Qed.
+
+Lemma filter_length_le_impl {A} (f g : A -> bool) (L : list A) :
+  (forall x, In x L -> f x = true -> g x = true) -> length (filter f L) <= length (filter g L).
+Proof.
+  induction L as [|a L IH]; cbn; intro H; [lia|].
+  specialize (IH (fun x Hx => H x (or_intror Hx))).
+  destruct (f a) eqn:Fa; [rewrite (H a (or_introl eq_refl) Fa); cbn; lia|].
+  destruct (g a); cbn; lia.
+Qed.
+
+Lemma filter_length_lt {A} (f g : A -> bool) (L : list A) a :
+  (forall x, In x L -> f x = true -> g x = true) -> In a L -> g a = true -> f a = false ->
+  length (filter f L) < length (filter g L).
+Proof.
+  induction L as [|b L IH]; cbn; intros H Ha Ga Fa; [destruct Ha|].
+  destruct Ha as [->|Ha].
+  - rewrite Fa, Ga. cbn.
+    pose proof (filter_length_le_impl f g L (fun x Hx => H x (or_intror Hx))). lia.
+  - specialize (IH (fun x Hx => H x (or_intror Hx)) Ha Ga Fa).
+    destruct (f b) eqn:Fb; [rewrite (H b (or_introl eq_refl) Fb); cbn; lia|].
+    destruct (g b); cbn; lia.
+Qed.
+
+Section Fuel.
+  Variable preds : N -> list N.
+  Variable L : list N.
+  Hypothesis L_closed : forall x p, In x L -> In p (preds x) -> In p L.
+
+  Definition unmarkedb (m : list (N * bool)) (x : N) : bool :=
+    match alookup x m with None => true | Some _ => false end.
+  Definition unmarked (m : list (N * bool)) : nat := length (filter (unmarkedb m) L).
+
+  Lemma unmarked_mono m m' : marks_mono m m' -> unmarked m' <= unmarked m.
+  Proof.
+    intro H. apply filter_length_le_impl. intros x _. unfold unmarkedb.
+    specialize (H x). destruct (alookup x m); [|reflexivity].
+    destruct (alookup x m'); [discriminate|]. exfalso. apply H; [discriminate|reflexivity].
+  Qed.
+
+  Lemma dfs_loop_mono (rec : N -> list (N * bool) -> list N -> dres) n :
+    (forall p m o m' o', rec p m o = DOk m' o' -> marks_mono m m') ->
+    forall ps m o m' o', dfs_loop rec n ps m o = DOk m' o' -> marks_mono m m'.
+  Proof.
+    intro Hrec. induction ps as [|p ps IH]; cbn; intros m o m' o' H.
+    - inversion H; subst. intros x Hx; exact Hx.
+    - destruct (rec p m o) as [m1 o1|e|] eqn:R; try discriminate.
+      intros x Hx. eapply IH; [exact H|]. eapply Hrec; eassumption.
+  Qed.
+
+  Lemma dfs_mono : forall f n m o m' o', dfs preds f n m o = DOk m' o' -> marks_mono m m'.
+  Proof.
+    induction f as [|f IH]; cbn; intros n m o m' o' H; [discriminate|].
+    destruct (alookup n m) as [[|]|] eqn:Ln.
+    - inversion H; subst. intros x Hx; exact Hx.
+    - discriminate.
+    - destruct (dfs_loop (dfs preds f) n (preds n) (aset n false m) o) as [m1 o1|e|] eqn:D;
+        try discriminate.
+      inversion H; subst. intros x Hx. apply marks_mono_aset.
+      eapply (dfs_loop_mono (dfs preds f) n IH); [exact D|]. apply marks_mono_aset. exact Hx.
+  Qed.
+
+  Lemma dfs_loop_fuel (rec : N -> list (N * bool) -> list N -> dres) n k :
+    (forall p m o m' o', rec p m o = DOk m' o' -> marks_mono m m') ->
+    (forall p m o, In p L -> unmarked m <= k -> rec p m o <> DFuel) ->
+    forall ps m o, (forall p, In p ps -> In p L) -> unmarked m <= k ->
+                   dfs_loop rec n ps m o <> DFuel.
+  Proof.
+    intros Hmono Hrec. induction ps as [|p ps IH]; cbn; intros m o Hin Hk; [discriminate|].
+    destruct (rec p m o) as [m1 o1|e|] eqn:R.
+    - apply IH; [intros q Hq; apply Hin; right; exact Hq|].
+      pose proof (unmarked_mono m m1 (Hmono _ _ _ _ _ R)). lia.
+    - discriminate.
+    - exfalso. eapply Hrec; [apply Hin; left; reflexivity|exact Hk|exact R].
+  Qed.
+
+  Lemma dfs_fuel : forall f n m o, In n L -> unmarked m < f -> dfs preds f n m o <> DFuel.
+  Proof.
+    induction f as [|f IH]; intros n m o Hn Hf; [lia|].
+    cbn. destruct (alookup n m) as [[|]|] eqn:Ln; try discriminate.
+    assert (Hlt : unmarked (aset n false m) < unmarked m).
+    { apply (filter_length_lt _ _ L n).
+      - intros x _. unfold unmarkedb. rewrite alookup_aset.
+        destruct (N.eqb x n); [discriminate|auto].
+      - exact Hn.
+      - unfold unmarkedb. rewrite Ln. reflexivity.
+      - unfold unmarkedb. rewrite alookup_aset, N.eqb_refl. reflexivity. }
+    pose proof (dfs_loop_fuel (dfs preds f) n (unmarked (aset n false m)) (dfs_mono f)) as HL.
+    specialize (HL (fun p m1 o1 Hp Hk => IH p m1 o1 Hp ltac:(lia))).
+    specialize (HL (preds n) (aset n false m) o (fun p Hp => L_closed n p Hn Hp) (le_n _)).
+    destruct (dfs_loop (dfs preds f) n (preds n) (aset n false m) o); [discriminate|discriminate|].
+    exfalso. apply HL. reflexivity.
+  Qed.
+
+  Lemma topo_loop_fuel fuel : forall ns m o,
+    (forall x, In x ns -> In x L) -> length L < fuel -> topo_loop preds fuel ns m o <> TFuel.
+  Proof.
+    induction ns as [|n ns IH]; cbn; intros m o Hin Hf; [discriminate|].
+    destruct (dfs preds fuel n m o) as [m1 o1|e|] eqn:D.
+    - apply IH; [intros x Hx; apply Hin; right; exact Hx|exact Hf].
+    - destruct (position (last e 0%N) e); discriminate.
+    - exfalso. eapply dfs_fuel; [apply Hin; left; reflexivity| |exact D].
+      unfold unmarked. pose proof (filter_length_le_impl (unmarkedb m) (fun _ => true) L (fun _ _ _ => eq_refl)).
+      assert (E : filter (fun _ : N => true) L = L)
+        by (clear; induction L as [|a l IHl]; cbn; [reflexivity|rewrite IHl; reflexivity]).
+      rewrite E in H. lia.
+  Qed.
+End Fuel.
+
+(* out of fuel is impossible as soon as the fuel exceeds the length of ANY list that contains
+   the nodes and is closed under predecessors *)
+Theorem topo_sort_fuel_ok preds fuel nodes (L : list N) :
+  (forall x p, In x L -> In p (preds x) -> In p L) -> incl nodes L -> length L < fuel ->
+  topo_sort_fuel preds fuel nodes <> TFuel.
+Proof. intros Cl Hin Hf. unfold topo_sort_fuel. apply (topo_loop_fuel preds L Cl); assumption. Qed.
+
+Corollary topo_sort_closed_no_fuel nodes preds :
+  (forall x p, In x nodes -> In p (preds x) -> In p nodes) -> topo_sort nodes preds <> TFuel.
+Proof.
+  intro Cl. unfold topo_sort. apply (topo_sort_fuel_ok preds _ nodes nodes Cl (incl_refl _)). lia.
+Qed.
+
+Lemma alookup_in {A} k (v : A) m : alookup k m = Some v -> In (k, v) m.
+Proof.
+  induction m as [|[k0 v0] r IH]; cbn; [discriminate|].
+  destruct (N.eqb k k0) eqn:E; [|auto].
+  apply N.eqb_eq in E. subst. intro H. inversion H. left. reflexivity.
+Qed.
+
+Corollary topo_sort_adj_no_fuel nodes adj : topo_sort_adj nodes adj <> TFuel.
+Proof.
+  unfold topo_sort_adj.
+  apply (topo_sort_fuel_ok (preds_of adj) _ nodes (nodes ++ concat (map snd adj))).
+  - intros x p _ Hp. apply in_or_app. right. unfold preds_of in Hp.
+    destruct (alookup x adj) as [l|] eqn:E; [|destruct Hp].
+    apply alookup_in in E. apply in_concat. exists l. split; [|exact Hp].
+    apply (in_map snd) in E. exact E.
+  - apply incl_appl. apply incl_refl.
+  - rewrite app_length. lia.
+Qed.
+
+(* ------------------------------------------------------------------ Ok iff acyclic *)
+
+Lemma chain_has_pred preds : forall r a s,
+  chain preds (a :: r) -> In s r -> exists p, In p (a :: r) /\ In p (preds s).
+Proof.
+  induction r as [|b r IH]; intros a s Ch Hs; [destruct Hs|].
+  cbn in Ch. destruct Ch as [Hab Ch]. destruct Hs as [<-|Hs].
+  - exists a. split; [left; reflexivity|exact Hab].
+  - destruct (IH b s Ch Hs) as (p & Hp & Hps). exists p. split; [right; exact Hp|exact Hps].
+Qed.
+
+Lemma cycle_has_pred preds c s :
+  is_cycle preds c -> In s c -> exists p, In p c /\ In p (preds s).
+Proof.
+  intros (Hne & _ & Ch & Hl) Hs. destruct c as [|a r]; [congruence|].
+  destruct Hs as [<-|Hs].
+  - exists (last (a :: r) 0%N). split; [|exact Hl].
+    clear. revert a. induction r as [|b r IH]; intro a; [left; reflexivity|].
+    right. apply (IH b).
+  - exact (chain_has_pred preds r a s Ch Hs).
+Qed.
+
+Lemma first_in (c : list N) : forall o,
+  (exists x, In x o /\ In x c) ->
+  exists l1 s l2, o = l1 ++ s :: l2 /\ In s c /\ forall y, In y l1 -> ~ In y c.
+Proof.
+  induction o as [|a o IH]; intros (x & Hx & Hc); [destruct Hx|].
+  destruct (in_dec N.eq_dec a c) as [Ha|Ha].
+  - exists [], a, o. split; [reflexivity|]. split; [exact Ha|intros y []].
+  - destruct Hx as [->|Hx]; [contradiction|].
+    destruct (IH (ex_intro _ x (conj Hx Hc))) as (l1 & s & l2 & -> & Hs & Hl).
+    exists (a :: l1), s, l2. split; [reflexivity|]. split; [exact Hs|].
+    intros y [<-|Hy]; auto.
+Qed.
+
+Lemma tsorted_no_cycle preds o c :
+  tsorted preds o -> is_cycle preds c -> incl c o -> False.
+Proof.
+  intros T Hc Hin. destruct c as [|a r] eqn:Ec; [destruct Hc as (H & _); congruence|]. rewrite <- Ec in *.
+  assert (Hex : exists x, In x o /\ In x c).
+  { exists a. split; [apply Hin|]; rewrite Ec; left; reflexivity. }
+  destruct (first_in c o Hex) as (l1 & s & l2 & -> & Hs & Hl).
+  destruct (cycle_has_pred preds c s Hc Hs) as (p & Hp & Hps).
+  apply (Hl p); [|exact Hp]. exact (T l1 s l2 eq_refl p Hps).
+Qed.
+
+Lemma reach_in_order preds fuel nodes o :
+  topo_sort_fuel preds fuel nodes = TOk o -> forall x, reach preds nodes x -> In x o.
+Proof.
+  intro H. destruct (topo_sort_ok preds fuel nodes o H) as (_ & Hn & T & _).
+  induction 1 as [x Hx|x p _ IH Hp]; [apply Hn; exact Hx|].
+  eapply tsorted_closed; eassumption.
+Qed.
+
+Theorem topo_sort_ok_acyclic preds fuel nodes o :
+  topo_sort_fuel preds fuel nodes = TOk o ->
+  ~ exists c, is_cycle preds c /\ forall x, In x c -> reach preds nodes x.
+Proof.
+  intros H (c & Hc & Hr). destruct (topo_sort_ok preds fuel nodes o H) as (_ & _ & T & _).
+  apply (tsorted_no_cycle preds o c T Hc). intros x Hx. apply (reach_in_order preds fuel nodes o H). auto.
+Qed.
+
+Theorem topo_sort_err_reachable preds fuel nodes c :
+  topo_sort_fuel preds fuel nodes = TErr c ->
+  is_cycle preds c /\ forall x, In x c -> reach preds nodes x.
+Proof.
+  intro H. destruct (topo_sort_cycle preds fuel nodes c H) as (Hc & HU). split; [exact Hc|].
+  apply HU; [intros x p Hx Hp; eapply reach_pred; eassumption|intros x Hx; apply reach_node; exact Hx].
+Qed.
+
+(* Ok exactly when no cycle is reachable from the nodes (for sufficient fuel) *)
+Theorem topo_sort_ok_iff_acyclic preds fuel nodes (L : list N) :
+  (forall x p, In x L -> In p (preds x) -> In p L) -> incl nodes L -> length L < fuel ->
+  ((exists o, topo_sort_fuel preds fuel nodes = TOk o) <->
+   ~ exists c, is_cycle preds c /\ forall x, In x c -> reach preds nodes x).
+Proof.
+  intros Cl Hin Hf. split.
+  - intros (o & H). exact (topo_sort_ok_acyclic preds fuel nodes o H).
+  - intro Hno. destruct (topo_sort_fuel preds fuel nodes) as [o|c|] eqn:R.
+    + exists o. reflexivity.
+    + exfalso. apply Hno. exists c. exact (topo_sort_err_reachable preds fuel nodes c R).
+    + exfalso. exact (topo_sort_fuel_ok preds fuel nodes L Cl Hin Hf R).
+Qed.
